@@ -190,6 +190,47 @@ def _string_worker(task):
     return out
 
 
+DOM_SOURCES = ["entry offset", "entry ?AT_decl_line @AT_decl_line", "entry ?AT_byte_size @AT_byte_size", "entry label", "entry attribute label", "entry attribute form",
+               "symbol address", "symbol size", "symbol label", "entry ?(@AT_location) @AT_location elem offset", "entry (pos == 0) address low", "unit offset",
+               "entry abbrev code", "DW_TAG_variable", "DW_AT_name", "T_STR", "true", "false", "[1, 2] elem pos", "0x10", "010", "0b11", "17"]
+
+
+def _domfmt_worker(d, chunk, extra):
+    """%d %x %o %b of a constant of ANY domain (offsets, addresses, line numbers, named constants, booleans, positions)
+    render its number in that radix: the text reads back as the literal of that radix with the same value."""
+    out = {"n": 0, "bad": []}
+    for f in extra["files"]:
+        rs = d.batch(["open id=d1 path=" + drv.hx(f)] + [c for v in chunk for c in
+                     [drv.run_cmd(v, i="d1", lim=40)] + [drv.run_cmd('%s "%%%s"' % (v, dch), i="d1", lim=40) for dch in "dxob"]] + ["close id=d1"])[1:-1]
+        for k, v in enumerate(chunk):
+            base = rs[5 * k]
+            if base.crash or any(r.crash for r in rs[5 * k:5 * k + 5]):
+                out["bad"].append(("domfmt:%s|crash" % v, "`%s` or a directive on it died on %s" % (v, f), {"part": "domfmt", "v": v, "file": f}))
+                d.batch(["open id=d1 path=" + drv.hx(f)])
+                break
+            nums = []
+            for x in base.results():
+                m = x.split(" ")[-1].rsplit("@", 1)[0]
+                nums.append(int(m.split(":")[2]) if m.startswith("c:") else None)
+            for dch, dom, r in zip("dxob", ("dec", "hex", "oct", "bin"), rs[5 * k + 1:5 * k + 5]):
+                texts = [drv.unhx(x.split(" ")[-1].split(":")[1].split("@")[0]).decode("latin-1") if x.split(" ")[-1].startswith("s:x") else None for x in r.results()]
+                if len(texts) != len(nums):
+                    out["bad"].append(("domfmt:%s|%s|count" % (v, dch), "`%s \"%%%s\"` yields %d strings for %d values" % (v, dch, len(texts), len(nums)), {"part": "domfmt", "v": v, "file": f}))
+                    continue
+                want = {"d": lambda n: str(n), "x": lambda n: ("-" if n < 0 else "") + hex(abs(n)), "o": lambda n: ("-" if n < 0 else "") + "0" + oct(abs(n))[2:],
+                        "b": lambda n: ("-" if n < 0 else "") + "0b" + bin(abs(n))[2:]}[dch]
+                for n, t in zip(nums, texts):
+                    if n is None:
+                        continue
+                    out["n"] += 1
+                    if t != want(n):
+                        out["bad"].append(("domfmt:%s|%s" % (v, dch), "on %s a value of `%s` is the number %d; `%%%s` renders it as `%s`, the %s literal of that number is `%s`" % (
+                            f, v, n, dch, t, dom, want(n)), {"part": "domfmt", "v": v, "file": f}))
+                        break
+    out["bad"] = out["bad"][:10]
+    return out
+
+
 def seq_items():
     it = [lit(v, r) for v in (0, 1, 8, -7, 255) for r in ("dec", "hex", "oct", "bin")]
     return it + ["true", '"s"', "[]", "[010]", "DW_TAG_array_type", "T_STR"]
@@ -263,6 +304,8 @@ def replay(case):
             return bool(_const_worker(d, [case["w"]], None)["bad"])
         if case["part"] == "int":
             return bool(_int_worker(d, [(case["v"], case["r"])], None)["bad"])
+        if case["part"] == "domfmt":
+            return bool(_domfmt_worker(d, [case["v"]], {"files": [case["file"]]})["bad"])
         if case["part"] == "seq":
             return bool(_seq_worker(d, [tuple(case["t"])], None)["bad"])
         return bool(cli_int_check(bins["dwgrep"], d, "quick")[1])
@@ -288,6 +331,11 @@ def main(ctx):
             ctx.violation(key, what, case)
     for r in common.pmap(ctx, _seq_worker, common.chunks(seq_cases(ctx.tier), 100), bins["zwdrv"], "full", timeout=120):
         ctx.count("sequence_renderings", r["n"])
+        for key, what, case in r["bad"]:
+            ctx.violation(key, what, case)
+    dfiles = [f for f in ["/repo/tests/typedef.o", "/repo/tests/bitcount.o"] + (["/repo/tests/nontrivial-types.o"] if thorough else []) if os.path.exists(f)]
+    for r in common.pmap(ctx, _domfmt_worker, common.chunks(DOM_SOURCES, 3), bins["zwdrv"], "full", extra={"files": dfiles}, timeout=120):
+        ctx.count("directive_renderings_of_domain_constants", r["n"])
         for key, what, case in r["bad"]:
             ctx.violation(key, what, case)
     d = drv.Drv(bins["zwdrv"], "core")
